@@ -10,6 +10,7 @@ the combined statements (`basic_gate_table`, …) are derived from the two.
 -/
 import NumqiProofs.CliffordLemmas
 import NumqiProofs.CliffordAlgebra
+import NumqiProofs.CliffordEmbed
 
 namespace Numqi.C07
 open Numqi Numqi.Clifford
@@ -161,32 +162,34 @@ theorem multiply_apply (x y z : Tab) (h : multiply x y = some z) (hn : x.n = y.n
 /-- the identity tableau (start value of `to_symplectic_form`) fixes every Pauli of the right length -/
 theorem apply_identity (n : Nat) (p : PauliB) (hp : p.v < 4 ^ n) : applyOnPauli p (Tab.id n) = p := apply_id n p hp
 
+/-- **An embedded symplectic tableau is symplectic**, for every register size `n` and every placement on pairwise
+distinct qubits below `n` (what `to_symplectic_form` multiplies with) -/
+theorem embed_colSp_all (n : Nat) (qs : List Nat) (hnd : qs.Nodup) (hlt : ∀ q ∈ qs, q < n) (loc : Tab)
+    (hk : loc.n = qs.length) (hloc : loc.colSp = true) : (embed n loc qs).colSp = true :=
+  embed_colSp ⟨hnd, hlt⟩ loc hk hloc
+
+/-- the eight adjoint-gate tableaux have the right size and are symplectic -/
+theorem dagger_tableaux_symplectic (k : GateKey) :
+    ∃ t, basicDaggerF2 k = some t ∧ t.n = k.arity ∧ t.colSp = true :=
+  ⟨dagTable k, basicDaggerF2_eq k, by cases k <;> rfl, by cases k <;> decide⟩
+
+/-- every gate record produced by method calls is well formed (index count = arity, indices pairwise distinct) -/
+theorem recorded_gates_wf (ops : List Op) : GatesWF (ops.foldl (fun g op => (specStep g op).1) []) := by
+  have key : ∀ (ops : List Op) (gates : List Gate), GatesWF gates →
+      GatesWF (ops.foldl (fun g op => (specStep g op).1) gates) := by
+    intro ops
+    induction ops with
+    | nil => intro gates h; exact h
+    | cons op ops ih => intro gates h; exact ih _ (specStep_wf gates h op)
+  exact key ops [] (fun g hg => by cases hg)
+
 /-- **The tableau of a circuit acts as its gates one after the other** (last gate first: `U† P U`, `U = g_L ⋯ g_1`),
-for every gate list on any number of qubits, provided the embedded gate tableaux are symplectic
-(`embedded_colSp_table` discharges this for registers of up to 6 qubits). -/
-theorem circuit_sequential (gates : List Gate) (t : Tab) (h : symplecticOf gates = .ok t) :
+for every well-formed gate record on any number of qubits: whenever `to_symplectic_form` returns `t`,
+`apply(P, t)` is the identity tableau followed by the embedded adjoint-gate tableaux in reverse order. -/
+theorem circuit_sequential (gates : List Gate) (hwf : GatesWF gates) (t : Tab) (h : symplecticOf gates = .ok t) :
     ∃ n, numQubit gates = .ok n ∧ t.n = n ∧
-      ((∀ g ∈ gates, ∀ loc, basicDaggerF2 g.key = some loc → (embed n loc g.idx).colSp = true) →
-        ∀ p, applyOnPauli p t = gates.reverse.foldl (gateAct n) (applyOnPauli p (Tab.id n))) :=
-  symplecticOf_sequential gates t h
-
-private theorem colSp_lit : ([1, 2, 3, 4, 5, 6] : List Nat).all (fun n => GateKey.all.all fun key =>
-    (placements n key.arity).all fun qs => (embed n (dagTable key) qs).colSp) = true := by
-  decide +kernel
-
-/-- the hypothesis of `circuit_sequential` for registers of 1…6 qubits: every placed gate tableau is symplectic -/
-theorem embedded_colSp_table (n : Nat) (hn : n ∈ ([1, 2, 3, 4, 5, 6] : List Nat)) (key : GateKey) (loc : Tab)
-    (hl : basicDaggerF2 key = some loc) (qs : List Nat) (hqs : qs ∈ placements n key.arity) :
-    (embed n loc qs).colSp = true := by
-  rw [basicDaggerF2_eq] at hl
-  cases hl
-  have h := colSp_lit
-  rw [List.all_eq_true] at h
-  have h2 := h n hn
-  rw [List.all_eq_true] at h2
-  have h3 := h2 key (by cases key <;> decide)
-  rw [List.all_eq_true] at h3
-  exact h3 qs hqs
+      ∀ p, applyOnPauli p t = gates.reverse.foldl (gateAct n) (applyOnPauli p (Tab.id n)) :=
+  symplecticOf_sequential' gates hwf dagger_tableaux_symplectic t h
 
 /-- all 24 one-qubit tableaux: Sp(2,F2) (enumerated by `from_int_tuple`) × all 4 phase vectors -/
 def tabs1 : List Tab :=
